@@ -118,14 +118,32 @@ func denotes(s string, o DecOpt) interface{} {
 	return s
 }
 
-// castExact: with no skip-tag function set, every string leaf of the un-cast decoding must have
-// become exactly the value its text denotes (castShape alone accepts a leaf left as a string).
-func castExact(plain, casted interface{}, o DecOpt, path string) string {
+// castExact: every string leaf of the un-cast decoding must have become exactly the value its
+// text denotes (castShape alone accepts a leaf left as a string) - unless the function given to
+// SetCheckTagToSkipFunc answers true for the key the leaf is stored under, in which case it must
+// have stayed the identical string.
+func castExact(plain, casted interface{}, o DecOpt, path, key string) string {
 	switch p := plain.(type) {
 	case map[string]interface{}:
 		c, _ := casted.(map[string]interface{})
+		// text of an element is cast under the text key when the element already has entries
+		// (attributes are loaded first) or simple values are decoded as maps, and under the
+		// element's own key when it arrives ahead of everything else and is moved under the text
+		// key later: only the first situation is recognisable in the Map
+		textUnderTextKey := o.AsMap
+		if o.AttrPrefix != "" {
+			for k, v := range p {
+				if _, isStr := v.(string); isStr && strings.HasPrefix(k, o.AttrPrefix) && k != o.textK() {
+					textUnderTextKey = true
+				}
+			}
+		}
 		for _, k := range sortedKeys(p) {
-			if r := castExact(p[k], c[k], o, path+"."+k); r != "" {
+			kk := k
+			if k == o.textK() && !textUnderTextKey {
+				kk = "\x00ambiguous"
+			}
+			if r := castExact(p[k], c[k], o, path+"."+k, kk); r != "" {
 				return r
 			}
 		}
@@ -133,14 +151,29 @@ func castExact(plain, casted interface{}, o DecOpt, path string) string {
 		c, _ := casted.([]interface{})
 		for i := range p {
 			if i < len(c) {
-				if r := castExact(p[i], c[i], o, fmt.Sprintf("%s[%d]", path, i)); r != "" {
+				if r := castExact(p[i], c[i], o, fmt.Sprintf("%s[%d]", path, i), key); r != "" {
 					return r
 				}
 			}
 		}
 	case string:
-		if want := denotes(p, o); enc(want) != enc(casted) {
-			return fmt.Sprintf("leaf %q denotes %T(%v) under the enabled options but was decoded as %T(%v) at %s", p, want, want, casted, casted, path)
+		if key == "\x00ambiguous" && o.SkipSet && enc(casted) == enc(p) {
+			return ""
+		}
+		skipped := false
+		if o.SkipSet {
+			for _, sk := range o.Skip {
+				if sk == key && key != "" {
+					skipped = true
+				}
+			}
+		}
+		if skipped {
+			if enc(casted) != enc(p) {
+				return fmt.Sprintf("SKIPTAG leaf %q under key %q, which the skip function covers, was cast to %T(%v) at %s", p, key, casted, casted, path)
+			}
+		} else if want := denotes(p, o); enc(want) != enc(casted) {
+			return fmt.Sprintf("leaf %q under key %q denotes %T(%v) under the enabled options but was decoded as %T(%v) at %s", p, key, want, want, casted, casted, path)
 		}
 	}
 	return ""
@@ -206,8 +239,11 @@ func c14Exec(op string) string {
 			note = "un-cast decoding produced a non-string leaf"
 		} else if o.Cast {
 			note = castShape(plain, m, o, "")
-			if note == "" && !o.SkipSet {
-				note = castExact(plain, m, o, "")
+			// (with tag sequence numbers a simple value is wrapped as {text key, _seq} after it was
+			// cast under the element's own key: which key the skip function saw is then not
+			// visible in the Map, so the key-exact oracle is not applied to that combination)
+			if note == "" && !(o.SkipSet && o.SeqNum) {
+				note = castExact(plain, m, o, "", "")
 			}
 			if note == "" && !o.NanInf {
 				if _, jerr := mxj.Map(m).Json(); jerr != nil {
